@@ -94,3 +94,32 @@ func emptyCRC(crcType CRCType) (arr []byte, err error) {
 
 	return
 }
+
+// checkCRCBuff verifies a received CRC value. The buffer must hold every byte of the block as it was
+// received, including the trailing CRC field; the CRC is calculated over these bytes with the CRC
+// field's value replaced by zeros.
+func checkCRCBuff(buff *bytes.Buffer, crcType CRCType, crcVal []byte) error {
+	empty, typeErr := emptyCRC(crcType)
+	if typeErr != nil {
+		return typeErr
+	}
+
+	data := buff.Bytes()
+	if len(crcVal) != len(empty) || len(data) < len(empty) {
+		return fmt.Errorf("invalid CRC value: %x has not the length %d", crcVal, len(empty))
+	}
+	copy(data[len(data)-len(empty):], empty)
+
+	switch crcType {
+	case CRC16:
+		binary.BigEndian.PutUint16(empty, crc16.Checksum(data, crc16table))
+
+	case CRC32:
+		binary.BigEndian.PutUint32(empty, crc32.Checksum(data, crc32table))
+	}
+
+	if !bytes.Equal(empty, crcVal) {
+		return fmt.Errorf("invalid CRC value: %x instead of expected %x", crcVal, empty)
+	}
+	return nil
+}
